@@ -19,6 +19,7 @@ from __future__ import annotations
 
 import contextlib
 import io
+import json
 import math
 from fractions import Fraction
 
@@ -32,18 +33,26 @@ NAN = "nan"
 # ------------------------------------------------------------------------------------------------
 # exact numbers <-> JSON
 # ------------------------------------------------------------------------------------------------
+def qs(x) -> str:
+    """exact value of a finite float / int as "p/q" (same format as core.qstr, without Fraction overhead)"""
+    if isinstance(x, int):
+        return str(x)
+    num, den = float(x).as_integer_ratio()
+    return str(num) if den == 1 else f"{num}/{den}"
+
+
 def vstr(x) -> str:
     x = float(x)
-    if math.isnan(x):
+    if x != x:
         return NAN
     if math.isinf(x):
         raise ValueError("infinite value in an exact program")
-    return core.qstr(x)
+    return qs(x)
 
 
 def vlist(a):
     import numpy as np
-    return [vstr(x) for x in np.asarray(a, dtype=float).ravel()]
+    return [vstr(x) for x in np.asarray(a, dtype=float).ravel().tolist()]
 
 
 def F(s) -> Fraction:
@@ -98,6 +107,7 @@ def _classes():
         gmask: jax.Array                # per flat parameter: 1.0, or NaN = gradient fault on marked batches
         struct: tuple = eqx.field(static=True)   # ((name, ((coef idx, (p idx…), z idx), …)), …)
         tag: str = eqx.field(static=True)
+        record: bool = eqx.field(static=True, default=True)   # report (params, batch) of every evaluation
 
         def __call__(self, params, batch):
             return self.evaluate(params, batch)
@@ -114,8 +124,9 @@ def _classes():
                 off += sz
                 parts.append(jnp.ravel(gscale(leaf, s)))
             p = jnp.concatenate(parts)
-            jax.debug.callback(lambda p_, *c: _rec(self.tag, p_, *c), jax.lax.stop_gradient(p), *cols,
-                               ordered=True)
+            if self.record:
+                jax.debug.callback(lambda p_, *c: _rec(self.tag, p_, *c), jax.lax.stop_gradient(p), *cols,
+                                   ordered=True)
             z = [jnp.ones(())]
             for c in cols:
                 z.append(jnp.sum(c))
@@ -238,7 +249,7 @@ def track_spec(pspec, track):
     return out
 
 
-def build_loss(lspec, nflat, tag):
+def build_loss(lspec, nflat, tag, record=True):
     import jax.numpy as jnp
     cl = _classes()
     coefs, struct = [], []
@@ -252,7 +263,8 @@ def build_loss(lspec, nflat, tag):
     mark = lspec.get("mark")
     return cl["ExactLoss"](coef=jnp.asarray(coefs, dtype=jnp.float64).reshape((len(coefs),)),
                            mark=jnp.asarray(float("nan") if mark is None else fl(mark), dtype=jnp.float64),
-                           gmask=jnp.asarray(gmask, dtype=jnp.float64), struct=tuple(struct), tag=tag)
+                           gmask=jnp.asarray(gmask, dtype=jnp.float64), struct=tuple(struct), tag=tag,
+                           record=record)
 
 
 def opt_key(ospec):
@@ -358,7 +370,7 @@ def fingerprint(gen):
     out = []
     for leaf in jax.tree_util.tree_leaves(gen):
         a = np.asarray(jax.random.key_data(leaf)) if _is_key(leaf) else np.asarray(leaf)
-        out.extend(core.qstr(x) for x in a.ravel().tolist())
+        out.extend(qs(x) for x in a.ravel().tolist())
     return out
 
 
@@ -389,7 +401,7 @@ def replay(data, pdata, odata, n):
         if odata is not None:
             odata, ob = step(odata)
             batch = append_obs_batch(batch, ob)
-        batches.append([[core.qstr(x) for x in np.asarray(c).tolist()] for c in cl["batch_cols"](batch)])
+        batches.append([[qs(x) for x in np.asarray(c).tolist()] for c in cl["batch_cols"](batch)])
         fps.append(fingerprint(data))
     return batches, fps
 
@@ -434,33 +446,46 @@ def build_validation(vspec, nflat):
                               stop=jnp.asarray([bool(o[2]) for o in sc]),
                               counter=jnp.zeros((), jnp.int32)), None
     from jinns.validation._validation import ValidationLoss
-    vd, vp, vo = build_generators(vspec["gens"])
-    vloss = build_loss(vspec["loss"], nflat, "V")
+    vd, vp, vo = _memo("gens", vspec["gens"], lambda: build_generators(vspec["gens"]))
+    vloss = _memo("loss", [vspec["loss"], nflat, "V"], lambda: build_loss(vspec["loss"], nflat, "V"))
     mod = ValidationLoss(loss=vloss, validation_data=vd, validation_param_data=vp, validation_obs_data=vo,
                          call_every=int(vspec["call_every"]), early_stopping=bool(vspec["early"]),
                          patience=int(vspec["patience"]))
     return mod, (vd, vp, vo)
 
 
+def _memo(kind, spec, build):
+    """objects built from a JSON sub-specification, cached (bounded) per worker"""
+    key = (kind, json.dumps(spec, sort_keys=True))
+    m = _CACHE.setdefault("memo", {})
+    if key not in m:
+        if len(m) > 256:
+            m.clear()
+        m[key] = build()
+    return m[key]
+
+
 def run_segment(seg, objs=None):
     """runs the real jinns.solve on the segment; returns (observation dict, returned 9-tuple or None).
-    `objs` (optional) overrides the objects passed in: {"params", "data", "opt_state"} for resumed runs."""
+    `objs` (optional) overrides the objects passed in: {"params", "data", "opt_state"} for resumed runs.
+    With seg["record"] = False the loss does not report its evaluations: the number of iterations run is
+    then read off the history of the parameter-free loss term "probe" (= 1 on every written slot)."""
     import jax
-    import numpy as np
     pspec = seg["params"]
     nflat = sum(leaf_sizes(pspec))
     n = int(seg["n"])
     objs = objs or {}
+    record = bool(seg.get("record", True))
     params = objs.get("params", None)
     if params is None:
-        params = build_params(pspec)
-    data, pdata, odata = build_generators(seg["gens"])
+        params = _memo("params", pspec, lambda: build_params(pspec))
+    data, pdata, odata = _memo("gens", seg["gens"], lambda: build_generators(seg["gens"]))
     if "data" in objs:
         data = objs["data"]
-    loss = build_loss(seg["loss"], nflat, "T")
+    loss = _memo("loss", [seg["loss"], nflat, record], lambda: build_loss(seg["loss"], nflat, "T", record))
     opt_state = objs.get("opt_state", None)
     if opt_state is None:
-        opt_state = init_opt_state(seg["opt"], params)
+        opt_state = _memo("opt_state", [seg["opt"], pspec], lambda: init_opt_state(seg["opt"], params))
     val, _ = build_validation(seg.get("val"), nflat)
     f = solve_fn(n, seg["opt"], pspec, seg.get("track"), bool(seg.get("jit", True)))
     del LOG[:]
@@ -483,12 +508,21 @@ def observe(seg, out, log):
     sizes = leaf_sizes(pspec)
     n = int(seg["n"])
     (p_out, loss_hist, term_hist, data_out, _loss_out, opt_out, stored, crit, best) = out
-    trecs = [r for r in log if r[0] == "T"]
-    # the first evaluation of the loss is the one made before the loop (container initialisation)
-    inloop = trecs[1:]
+    if seg.get("record", True):
+        trecs = [r for r in log if r[0] == "T"]
+        # the first evaluation of the loss is the one made before the loop (container initialisation)
+        inloop = trecs[1:]
+        iters = len(inloop)
+        batches = [[[qs(x) for x in c.tolist()] for c in r[2:]] for r in inloop]
+    else:
+        probe = [int(x) for x in np.asarray(term_hist["probe"]).tolist()]
+        iters = sum(probe)
+        if probe != [1] * iters + [0] * (n - iters):
+            return {"error": "other:probe-term-history-not-a-prefix"}
+        batches = []
     obs = {
-        "iters": len(inloop),
-        "batches": [[[core.qstr(x) for x in c.tolist()] for c in r[2:]] for r in inloop],
+        "iters": iters,
+        "batches": batches,
         "params": params_to_leaves(p_out),
         "loss_hist": vlist(loss_hist),
         "term_hist": [[vstr(np.asarray(term_hist[name])[i]) for name, _ in seg["loss"]["terms"]] for i in range(n)],
@@ -536,7 +570,7 @@ def observe(seg, out, log):
         for r in log:
             if r[0] == "V":
                 calls.append({"params": split_flat(r[1], sizes),
-                              "batch": [[core.qstr(x) for x in c.tolist()] for c in r[2:]]})
+                              "batch": [[qs(x) for x in c.tolist()] for c in r[2:]]})
     obs["calls"] = calls
     return obs
 
